@@ -1,7 +1,7 @@
 #!/bin/bash
 # usage: verify_seed.sh <dir with patch.diff demo_test.go>
 # Confirms in a scratch worktree of /repo HEAD: patch applies; builds in both arms; pinned suite passes
-# with the patch; demo FAILS with the patch; demo PASSES without it. Prints one summary line.
+# with the patch; demo FAILS (DEMO_TAGS=noasmtest runs the demo in the portable arm) with the patch; demo PASSES without it. Prints one summary line.
 set -u
 D=$1
 export GOFLAGS=-mod=mod GOPROXY=off GOSUMDB=off GOTOOLCHAIN=local
@@ -21,9 +21,9 @@ b2=ok; go build -tags noasmtest ./... >/dev/null 2>&1 || b2=FAIL
 suite=ok; go test -vet=off -count=1 ./... >$W/.suite.log 2>&1 || suite=FAIL
 suite2=ok; go test -vet=off -count=1 -tags noasmtest ./... >/dev/null 2>&1 || suite2=FAIL
 cp $D/demo_test.go $dir/zz_seed_demo_test.go
-with=pass; go test -vet=off -count=1 -run "^$tname" ./$dir/ >$W/.with.log 2>&1 || with=fail
+with=pass; go test -vet=off -count=1 ${DEMO_TAGS:+-tags $DEMO_TAGS} -run "^$tname" ./$dir/ >$W/.with.log 2>&1 || with=fail
 git checkout -q -- .
-without=pass; go test -vet=off -count=1 -run "^$tname" ./$dir/ >$W/.without.log 2>&1 || without=fail
+without=pass; go test -vet=off -count=1 ${DEMO_TAGS:+-tags $DEMO_TAGS} -run "^$tname" ./$dir/ >$W/.without.log 2>&1 || without=fail
 verdict=BAD
 [ $b1 = ok ] && [ $b2 = ok ] && [ $suite = ok ] && [ $with = fail ] && [ $without = pass ] && verdict=GOOD
 echo "RESULT $D verdict=$verdict build=$b1 build_noasm=$b2 suite=$suite suite_noasm=$suite2 demo_with=$with demo_without=$without dir=$dir test=$tname"
